@@ -225,3 +225,11 @@ def check(cx):
         for c in cs:
             cx.verdict(c in allowed, r7, "%s<-%s" % (callee, c), p.fn(c).where(), "expected caller",
                        "unexpected caller of %s" % callee)
+
+
+    # ---- C01.8 / C01.9 recovery really redoes committed work (constructs shared with C02 / C08) -----------
+    from . import c02, c08
+    cx.include(c02, {"C02.2", "C02.4"}, "C01.9", "shared with C02.2/C02.4: the analysis pass puts every transaction with a "
+               "COMMIT record into the redo set unconditionally, redo consults all operation maps, open() always recovers", floor=8)
+    cx.include(c08, {"C08.8", "C08.1"}, "C01.8", "shared with C08.8/C08.1: recovery decodes the logged images raw (never through a "
+               "snapshot) and discards the log only by a checkpoint after commit", floor=8)
